@@ -26,6 +26,12 @@ def run(R):
                 # output sizes beyond CRYPT_GENSALT_OUTPUT_SIZE: the result must stay < 192 characters and not depend on the size (seeded/C10)
                 for osz in ([193, R.rng.choice([200, 256, 300, 384]), R.rng.choice([512, 1024, 4096])] if quick else [193, 200, 256, 300, 384, 512, 1024, 4096, 65536]):
                     gops.append("G rn %s %d %s %d %d" % (hx(pfx), c, hx(rb) if n else ".", n, osz)); gmeta.append((m, c, n, "rn-big", pfx))
+    # arithmetic-edge random input: all-zero, all-ones and bytes whose low six bits are zero - the salt characters `.` / `z` and the zero sextets
+    # that random bytes almost never produce (seeded/C10f: the DES salt `..` generated and accepted by crypt_checksalt, refused by crypt)
+    for m, pfx in list(GS.TAGS.items()) + [("NULL", None)]:
+        for n in (16, 64):
+            for pat in (0x00, 0xff, 0x40, 0xc0, 0x3f):
+                gops.append("G rn %s 0 %s %d 192" % (hx(pfx), hx(bytes([pat]) * n), n)); gmeta.append((m, 0, n, "rn", pfx))
     # a full hash / setting as prefix selects the method of its tag
     for m, h in sample_hashes.items():
         for n in (16, 64):
